@@ -87,6 +87,20 @@ CLAIMED = {
              "when named in the check's rule text, not proved. Axioms: propext, Classical.choice, Quot.sound.",
         technique="Lean 4 proofs (unique decodability, invariant over snapshot sequences, reference counting) + differential correspondence on the real ctx_store.c",
         ref="DESIGN.md §5 C18"),
+    "C20": dict(
+        text="Lean 4 invariant proofs on a model of tools/xcmrelay/xrelay.c (two forwarders per relayed connection, one XCM call per fd "
+             "event): for EVERY sequence of events and EVERY answer of the XCM calls (EAGAIN anywhere, partial acceptance on byte "
+             "streams, errors, end of stream) the bytes received from a source equal the bytes accepted by xcm_send on the destination, "
+             "in order, followed by what the forwarder still holds (C20_forwarder_exact), message boundaries are preserved on messaging "
+             "transports (C20_messages_preserved), an end of stream is acted upon only by an empty forwarder (C20_eof_only_when_empty), "
+             "and the awaited conditions always are RECEIVABLE on an empty forwarder's source / SENDABLE on a full one's destination "
+             "(C20_awaits_what_it_needs). Tie: the real xrelay.c over scripted XCM calls vs the compiled model; the real relay "
+             "(rserver.c + xrelay.c) in a thread with concurrent connections, all transport pairs, back-pressure, fault injection.",
+        note="End-to-end transparency additionally rests on C01-C04 of the two legs. Known finding F-20a: messages accepted but not yet "
+             "flushed on the other leg are lost when the source closes (the model's `passed` is 'accepted by xcm_send', not 'flushed'). "
+             "Liveness of the libevent loop and real-time bounds are exercised (sys_relay), not proved. Axioms: propext, Classical.choice, Quot.sound.",
+        technique="Lean 4 invariant proofs over unbounded event/answer sequences + differential correspondence on the real xrelay.c + system runs of the real relay",
+        ref="DESIGN.md §5 C20"),
     "C07": dict(
         text="Lean 4 proofs on the framing model for an ARBITRARY arrived byte stream in arbitrary segmentation: the "
              "receive buffer never exceeds one maximum-size frame and no mbuf.h assertion can fire (C07_bounded_buffer), "
